@@ -1,7 +1,7 @@
 (* Correspondence for the LapTimer codec (C01, C13). *)
 From Coq Require Import String Ascii List ZArith NArith Bool.
 From TT Require Import Base.Outcome Base.Str Base.F64 Base.Verdict Xml.Print Xml.Lex
-     Laptimer.Leaves Laptimer.Value Laptimer.Codec Laptimer.Schema.
+     Laptimer.Leaves Laptimer.Value Laptimer.Codec Laptimer.Schema Proofs.Doc_lt.
 Import ListNotations.
 Local Open Scope Z_scope.
 
@@ -131,6 +131,8 @@ Definition check_c13 (c : case) : verdict :=
   | 2%nat | 3%nat => VV
   | cls =>
     if negb (Nat.eqb cls 0) then VV else
+    (* the hypothesis of C13_every_value_parses must hold of what the code is asked to write *)
+    if negb (wf_val_b (c_val c)) then VV else
     let same := neq (enc (c_val c)) (c_bytes c) in
     if wellformed c && c_gz_ok c && schema_ok c then (if same then VA else VS) else VV
   end.
